@@ -74,6 +74,14 @@ func (p c10) typeCase(c *fw.Case) {
 			return
 		}
 		c.Eval(6)
+		// the type of a nil interface value: reflect.TypeOf(nil) is the nil Type
+		var nothing any
+		if !c.CallChecked("ForType", "reflect.TypeOf(nil): the nil reflect.Type", func() {
+			_, _ = jsonschema.ForType(reflect.TypeOf(nothing), opts)
+		}) {
+			return
+		}
+		c.Eval(1)
 	}
 	if !c.CallChecked("ForType", map[string]any{"type": t.String(), "options": opts != nil}, func() { s, err = jsonschema.ForType(t, opts) }) {
 		return
